@@ -5,6 +5,7 @@ EXTENDS StoreSys
 \* sequences cannot be written in a .cfg file
 Order3 == <<"p1", "p2", "p3">>
 Order2 == <<"p1", "p2">>
+Order5 == <<"p1", "p2", "p3", "p4", "p5">>
 \* field checkers tried by the generator, per family (AllFields = nil checker = full update)
 FS_All  == {AllFields}
 FS_C03  == {AllFields, {"name"}, {"roles"}, {"nick"}}
